@@ -327,10 +327,15 @@ CLI_BAD = [["--lat=abc", "--long=1"], ["--lat=1"], ["--long=1"], ["--lat=1", "--
            ["--lat=1", "--long=2", "--locations", "(x,1)"], ["--lat=1", "--long=2", "--locations", "(x,1,)"], ["--lat=1", "--long=2", "--locations", "(x,a,b)"],
            ["--lat=1", "--long=2", "--locations", ""], ["--lat=1", "--long=2", "--locations", "()"], ["--lat=1", "--long=2", "--locations", ",,"],
            ["--lat=1", "--long=2", "--locations", "(x,1,2)", "(y)"], ["--lat=1", "--long=2", "--nonsense"], ["--lat", "--long"], ["--lat=1", "--long=2", "--locations", "(é,é,é)"],
-           ["--lat=1", "--long=2", "--filter-time=99999999999999999999999"]]
+           ["--lat=1", "--long=2", "--filter-time=99999999999999999999999"],
+           # files and folders named on the command line that cannot be used
+           ["--lat=1", "--long=2", "--airports=/nonexistent/airports.csv"], ["--lat=1", "--long=2", "--airports=" + os.path.join(VERIF, ".work", "not_airports.csv")],
+           ["--lat=1", "--long=2", "--log-folder=/proc/nonexistent/x"], ["--lat=1", "--long=2", "--log-folder=/dev/null/x"]]
 
 def check_cli(rng, tier, report):
     """invalid command-line values: usage error (exit status 2, message on stderr), no panic"""
+    os.makedirs(os.path.join(VERIF, ".work"), exist_ok=True)
+    open(os.path.join(VERIF, ".work", "not_airports.csv"), "w").write("icao,iata\nKJFK,JFK\n")
     for i, args in enumerate(CLI_BAD):
         p = subprocess.run([app("radar")] + args, stdout=subprocess.PIPE, stderr=subprocess.PIPE, stdin=subprocess.DEVNULL, timeout=20, cwd=os.path.join(VERIF, ".work"))
         err = p.stderr.decode(errors="replace")
